@@ -644,7 +644,13 @@ def none_only_if_no_input(ctx):
             if "State" not in st["lhs"]["ty"]:
                 continue
             n += 1
-            G = guard_region(b, lambda d: d[0] == "call" and d[1].endswith("Resources::is_empty"), True)
+            def no_resources(d, f=f):
+                # the emptiness test of a resource set: the local fn (&Resources) -> bool
+                if d[0] != "call":
+                    return False
+                cb_ = f.bodies.get(d[1])
+                return d[1].endswith("Resources::is_empty") or (cb_ is not None and cb_.ret == "bool" and cb_.argc == 1 and re.search(r"^&[\w:]*Resources$", cb_.locals[1]["ty"]) is not None)
+            G = guard_region(b, no_resources, True)
             # or: propagated None from a callee that satisfies the rule (match input_state? { None => Ok(None) })
             Gn = b.region(lambda l, e: l[0] == "variant" and l[2] == ("None",) and l[1].endswith("Option"))
             ctx.check(bb in G or bb in Gn, f"{short(b.name)}/None", [site(b, bb)], "a snapshot of `None` is produced although the target declares inputs: the target would never be skipped")
